@@ -109,6 +109,45 @@ def scenario_get(cs, stack, A, n, cohort, seed, order, perm_ids, key_of, expecte
   """UniformGetClientSampler: the result at round r does not depend on which rounds were sampled before (nor on how often
   the sampler was seated at r before sampling), and every id comes with ITS OWN dataset."""
   reset(perm_ids)
+  hidden0 = module_state(cs)
+  bad = _scenario_get(cs, stack, A, n, cohort, seed, order, key_of, expected_ids_fn, idmap, seat_twice)
+  if bad is None and module_state(cs) != hidden0:
+    msg = 'the sampler keeps state outside itself: module-level containers of client_samplers changed from %r to %r' % (hidden0, module_state(cs))
+    if A is M:
+      return msg           # model side: a candidate; the replay below must demonstrate a wrong result on the real code
+    demo = address_reuse_probe(cs, stack, A)
+    return (msg + '; ' + demo) if demo else None
+  return bad
+
+
+def address_reuse_probe(cs, stack, A):
+  """Real code only: datasets created and dropped in a loop (folds, trials); a sampler over a NEW dataset must draw that
+  dataset's ids even when the new object happens to live at the address of a dropped one."""
+  import gc
+  for t in range(30):
+    fa = stack['im'].InMemoryFederatedData({b'A%d' % j: {'x': A.arr([j], 'int32')} for j in range(3)})
+    cs.UniformGetClientSampler(fa, 2, 0).sample()
+    del fa
+    gc.collect()
+    fb = stack['im'].InMemoryFederatedData({b'B%d' % j: {'x': A.arr([j], 'int32')} for j in range(3)})
+    try:
+      ids = [c[0] for c in cs.UniformGetClientSampler(fb, 2, 0).sample()]
+    except KeyError as e:
+      return 'fold %d: sampling from a fresh dataset raises KeyError(%s) (ids of a dropped dataset are used)' % (t, e)
+    if any(not i.startswith(b'B') for i in ids):
+      return 'fold %d: a sampler over a fresh dataset returned ids %r of a dropped dataset' % (t, ids)
+    del fb
+  return None
+
+
+def module_state(cs):
+  """Sizes of the module-level mutable containers of the sampler module (a result that is a function of (seed, round) and of
+  the dataset cannot depend on a module-level cache)."""
+  return sorted((k, type(v).__name__, len(v)) for k, v in vars(cs).items()
+                if isinstance(v, (dict, list, set)) and not k.startswith('__'))
+
+
+def _scenario_get(cs, stack, A, n, cohort, seed, order, key_of, expected_ids_fn, idmap, seat_twice):
   fd = make_fd(stack, A, n, idmap)
   fd_ids = list(fd.client_ids())
   own_rows = {idmap(i): [i, i + 1] for i in IDS[:n]}
